@@ -709,6 +709,21 @@ def run_into(chk: Check, pid: str, tier: str) -> None:
                                        'full_size_hands': len(big)}
 
     if pid == 'C04':
+        # objects that cannot check the cards (no hands / two unseen hands) are told
+        # a card that was played before: thirteen tricks are thirteen tricks
+        for k_ in range(6 if quick else 60):
+            dl = random_deal(r)
+            tr_, de_ = r.randrange(5), r.randrange(4)
+            tid_ = f'dup{k_}'
+            ob = Obj(1, 'plain', NOSEAT, dl, tr_, de_)
+            evs_ = [ev_new(tid_, ob, dl, tr_, de_)]
+            pack = [c for h in dl for c in h]
+            r.shuffle(pack)
+            rep_at = r.choice([51, 51, 50, r.randrange(4, 52)])
+            for j_ in range(52):
+                c_ = pack[j_] if j_ != rep_at else pack[r.randrange(0, min(j_, 4))]
+                evs_.append(ev_play(tid_, ob, ob.proj()['active'], c_))
+            events.extend(evs_)
         # a second thread (a scoreboard) looks at the object while the cards of
         # the last trick are being played: play over => the counts total 13
         from . import race
